@@ -104,7 +104,24 @@ def open_chain_flags(fn, term):
     """{method: [const args]} of the OpenOptions builder chain reaching an OpenOptions::open call; None if it cannot be followed."""
     ch = builder_chain(fn, term["args"][0])
     if ch is None:
-        return None
+        # statement style: `let mut o = OpenOptions::new(); o.write(true).create(true); o.mode(m); o.open(path)` - every option set
+        # anywhere on the variable the open is made on (flow-insensitive: an option that is set on some path counts as set)
+        base = set(df.operand_trace(fn, term["args"][0]))
+        news = [t2["dest"]["l"] for b2, t2 in fn.calls() if (callee_of(t2).get("rpath") or "").endswith("OpenOptions::new") and "p" not in t2["dest"]]
+        base = {l for l in base if l in news}
+        if len(base) != 1:
+            return None
+        d = {}
+        for b2, t2 in fn.calls():
+            rp = callee_of(t2).get("rpath") or ""
+            if fn.blocks[b2]["cleanup"] or not t2["args"] or not (rp.startswith("std::fs::OpenOptions::") or "OpenOptionsExt" in rp):
+                continue
+            m = rp.split("::")[-1]
+            if m in ("new", "open") or not (set(df.operand_trace(fn, t2["args"][0])) & base):
+                continue
+            a = t2["args"][1] if len(t2["args"]) > 1 else None
+            d.setdefault(m, []).append(a.get("int") if a is not None and a.get("k") == "const" and "int" in a else None)
+        return d
     d = {}
     for m, v in ch:
         d.setdefault(m, []).append(v)
